@@ -205,18 +205,22 @@ def run(check, an: Analysis):
     verdict = False
     for path in an.paths(run_m):
         if path.normal:
-            def assigned(event):
-                expr = event.node.items[0].context_expr
+            def manager(index, event):
+                # the context expression, a local that holds it followed to its value
+                return rules.value_expr(path, index, event.node.items[0].context_expr)
+
+            def assigned(index, event):
+                expr = manager(index, event)
                 return isinstance(expr, ast.Call) and isinstance(expr.func, ast.Attribute) \
                     and expr.func.attr == 'assign'
             enter = [i for i, e in enumerate(path.events)
-                     if e.kind in ('ctx-enter', 'with-enter') and assigned(e)]
+                     if e.kind in ('ctx-enter', 'with-enter') and assigned(i, e)]
             leave = [i for i, e in enumerate(path.events)
-                     if e.kind in ('ctx-exit', 'with-exit') and assigned(e)]
+                     if e.kind in ('ctx-exit', 'with-exit') and assigned(i, e)]
             events = [i for i, e in enumerate(path.events)
                       if is_call_to(e, '_run_events') and e.depth == 0]
-            arg_ok = bool(enter) and [ast.unparse(a) for a in path.events[
-                enter[0]].node.items[0].context_expr.args] == ['self']
+            arg_ok = bool(enter) and [ast.unparse(a) for a in manager(
+                enter[0], path.events[enter[0]]).args] == ['self']
             verdict = len(enter) == 1 and len(events) == 1 and arg_ok and \
                 enter[0] < events[0] < leave[-1]
     check.instance('P', 'Loop.run:inside-assign', verdict, where_fn(run_m.fn),
@@ -396,6 +400,12 @@ def _classify(an: Analysis, module, name, value, cls):
     if isinstance(value, ast.Call):
         text = ast.unparse(value.func)
         short_name = text.split('.')[-1]
+        if cls is not None and not value.args and not value.keywords and any(
+                entry in ('ext:enum.Enum', 'ext:enum.IntEnum', 'ext:enum.Flag',
+                          'ext:enum.IntFlag') for entry in cls.mro):
+            binding = an.p.resolve_dotted(module, value.func)
+            if binding == ('ext', 'enum.auto'):
+                return 'ok', 'member of an enumeration (a constant)'
         if short_name in ('TypeVar', 'namedtuple', 'NamedTuple', 'float', 'int', 'frozenset',
                           'tuple', 'str', 'property'):
             return 'ok', 'immutable value'
